@@ -1824,7 +1824,27 @@ impl Analyzable for Program {
             .fold(AnalyzeReport::default(), |acc, x| acc + x);
 
         // transactions get at these definitions through the scope: it has to hold them as
-        // they are now, with the names in them resolved
+        // they are now, with the names in them resolved. So do the definitions themselves
+        // (`policy Q { hash: P, }`): one that mentions another sees it as the previous pass
+        // left it, a chain of n definitions takes n passes
+        let mut policies = policies;
+        let mut assets = assets;
+
+        for _ in 0..self.policies.len() + self.assets.len() {
+            let scope = Rc::make_mut(self.scope.as_mut().unwrap());
+
+            for policy in self.policies.iter() {
+                scope.track_policy_def(policy);
+            }
+
+            for asset in self.assets.iter() {
+                scope.track_asset_def(asset);
+            }
+
+            policies = self.policies.analyze(self.scope.clone());
+            assets = self.assets.analyze(self.scope.clone());
+        }
+
         let scope = Rc::make_mut(self.scope.as_mut().unwrap());
 
         for policy in self.policies.iter() {
